@@ -44,6 +44,12 @@ Only these lexical normalisations are applied to copied text (each counted, see 
      likewise `RECV.and_then(|PAT| EXPR)` becomes `(match RECV { Some(PAT) => EXPR, None => None })`.
      With option `result-map` the same for a Result: `(match RECV { Ok(PAT) => Ok(BODY), Err(e) => Err(e) })`, BODY may be a block
      (the closure is called exactly once, in the Ok case, so inlining it keeps its side effects where they were)
+  N12 (only with option `iter-any-all`) `RECV.iter().any(|PAT| BODY)` / `RECV.iter().all(|PAT| BODY)` with RECV a field path, PAT
+     `x` or `&x` and a BODY that does not leave the closure become the loop that `Iterator::any` / `Iterator::all` are
+     documented to be (short-circuiting on the first hit):
+        { let mut __vp_anyK = false; for __vp_eK in RECV.iter() { let x = *__vp_eK; if BODY { __vp_anyK = true; break; } } __vp_anyK }
+        { let mut __vp_allK = true;  for x in RECV.iter() { if !(BODY) { __vp_allK = false; break; } } __vp_allK }
+     (Verus has no specification for iterator adapters taking closures)
   N10 statements `LHS |= E;` / `LHS &= E;` (bool operands: Verus has no `|`/`&` on bool) become `if E { LHS = true; }` /
      `if !(E) { LHS = false; }`: E is evaluated exactly once in both forms and the assignment leaves LHS unchanged in the other
      case; for a non-bool LHS the result does not type-check
@@ -405,7 +411,7 @@ class Normaliser:
         self.counts = {'N1_visibility': 0, 'N2_attrs_docs_dropped': 0, 'N3_ret_named_contract_spliced': 0,
                        'N4_cfg_statistics_or_allow_dropped': 0, 'N4b_cfg_attribute_dropped_code_kept': 0,
                        'N5_ref_pattern_desugared': 0,
-                       'N6_impl_iterator_return_type': 0, 'N7_tail_loop_break_value': 0, 'N8_map_constructor_then_try': 0, 'N9_assert_eq_as_assert': 0, 'N10_bool_compound_assign': 0, 'N11_option_map_closure_inlined': 0, 'G_ghost_splices': 0}
+                       'N6_impl_iterator_return_type': 0, 'N7_tail_loop_break_value': 0, 'N8_map_constructor_then_try': 0, 'N9_assert_eq_as_assert': 0, 'N10_bool_compound_assign': 0, 'N11_option_map_closure_inlined': 0, 'N12_iter_any_all_as_loop': 0, 'G_optional_splices_skipped': 0, 'G_ghost_splices': 0}
 
     def vis(self, s):
         def rep(m):
@@ -652,7 +658,17 @@ class Normaliser:
             return ' '.join(out)
 
         # invariants contain braces: insert them last so that loop bodies are still found by their first `{`
-        for kind, arg, txt in sorted(splices, key=lambda x: x[0] == 'loop'):
+        for kind, arg, txt in sorted(splices, key=lambda x: x[0].lstrip('?') == 'loop'):
+            if kind.startswith('?'):
+                try:
+                    body = self.splice(body, [(kind[1:], arg, txt)])
+                except AnchorLost:
+                    self.counts['G_optional_splices_skipped'] += 1
+                    # proof text for a loop shape that is gone: the contract alone decides, but only for loop-free code (a loop
+                    # without its invariant fails for want of proof, which is not a verdict about the code)
+                    if [m for m in Scan(body).finditer_code(r'\b(for|while|loop)\b')]:
+                        raise AnchorLost('optional ghost splice skipped but the body still has loops (no invariant for them)')
+                continue
             sc = Scan(body)
             t = flat(txt)
             if kind in ('loop', 'loop-start', 'loop-end'):
@@ -831,7 +847,7 @@ def expand(template_path, repo):
             in_splice = False
             while olines[oj].strip() != '//@end':
                 osx = olines[oj].strip()
-                if osx.startswith('//@loop ') or osx.startswith('//@ghost '):
+                if osx.startswith(('//@loop ', '//@ghost ', '//@loop? ', '//@ghost? ')):
                     in_splice = True   # ghost splices belong to the body, which is not visible in the importing unit
                 if not in_splice:
                     cl.append(olines[oj])
@@ -870,6 +886,13 @@ def expand(template_path, repo):
             curs = None
             for cl in contract:
                 cs = cl.strip()
+                if cs.startswith('//@loop? ') or cs.startswith('//@ghost? '):
+                    # optional splice: skipped (and counted) when its anchor does not exist in the body -- for proof text that is
+                    # only needed while the code has a certain shape; without it the contract alone decides
+                    cs = cs.replace('? ', ' ', 1)
+                    optional = True
+                else:
+                    optional = False
                 if cs.startswith('//@loop ') or cs.startswith('//@ghost '):
                     if cs.startswith('//@loop '):
                         curs = ['loop', cs[len('//@loop '):].strip(), '']
@@ -877,6 +900,8 @@ def expand(template_path, repo):
                         rest = cs[len('//@ghost '):].strip()
                         kind, _, arg = rest.partition(' ')
                         curs = [kind, arg.strip().strip('`'), '']
+                    if optional:
+                        curs[0] = '?' + curs[0]
                     splices.append(curs)
                 elif curs is not None:
                     curs[2] += cl + '\n'
@@ -896,6 +921,44 @@ def expand(template_path, repo):
             body = norm.body(body)
             if not external:
                 body = norm.refpat(body)
+                # N12
+                if 'iter-any-all' in opts:
+                    k12 = 0
+                    while True:
+                        sc12 = Scan(body)
+                        m12 = None
+                        for mm in re.finditer(r'(\b[a-z_]\w*(?:\s*\.\s*[a-z_]\w*)*)\s*\.\s*iter\(\)\s*\.\s*(any|all)\(\s*\|', body):
+                            if sc12.is_code(mm.start()):
+                                m12 = mm
+                                break
+                        if not m12:
+                            break
+                        po = body.index('(', m12.start(2))
+                        pc = sc12.match[po]
+                        cm = re.match(r'\s*\|([^|]*)\|\s*(.*)$', body[po + 1:pc], re.S)
+                        if not cm:
+                            raise AnchorLost(f'{rel}: fn {qn}: N12: closure not recognised')
+                        pat12, expr12 = cm.group(1).strip(), cm.group(2).rstrip()
+                        if re.search(r'\b(return|break|continue)\b|\?', expr12):
+                            raise AnchorLost(f'{rel}: fn {qn}: N12: closure body leaves the closure (return / ? / break / continue)')
+                        if re.fullmatch(r'[a-z_]\w*', pat12):
+                            bind = ''
+                            var = pat12
+                        elif re.fullmatch(r'&\s*[a-z_]\w*', pat12):
+                            var = f'__vp_e{k12}'
+                            bind = f'let {pat12[1:].strip()} = *{var}; '
+                        else:
+                            raise AnchorLost(f'{rel}: fn {qn}: N12: closure parameter pattern {pat12!r} is not handled')
+                        acc = f'__vp_{m12.group(2)}{k12}'
+                        recv = body[m12.start(1):m12.end(1)]
+                        if m12.group(2) == 'any':
+                            rep = (f'{{ let mut {acc} = false; for {var} in {recv}.iter() {{ {bind}if {expr12} {{ {acc} = true; break; }} }} {acc} }}')
+                        else:
+                            rep = (f'{{ let mut {acc} = true; for {var} in {recv}.iter() {{ {bind}if !({expr12}) {{ {acc} = false; break; }} }} {acc} }}')
+                        lost = body[m12.start():pc + 1].count('\n') - rep.count('\n')
+                        body = body[:m12.start()] + rep + '\n' * max(lost, 0) + body[pc + 1:]
+                        norm.counts['N12_iter_any_all_as_loop'] += 1
+                        k12 += 1
                 # N11
                 if 'option-map' in opts or 'result-map' in opts:
                     while True:
